@@ -469,6 +469,56 @@ def _bool_defs(body, local, neg=False, seen=None):
     return out
 
 
+def reachable_const(body, start, limit=20000):
+    """Blocks reachable from `start` when bool locals that were just assigned a constant are remembered: after
+    `_2 = const true` a `switch(_2)` only takes its true arm (`a || b || c` stored in a temporary and tested later)."""
+    seen = set()
+    out = set()
+    work = [(start, frozenset())]
+    while work and len(seen) < limit:
+        bb, env = work.pop()
+        if (bb, env) in seen:
+            continue
+        seen.add((bb, env))
+        out.add(bb)
+        blk = body.blocks[bb]
+        if blk["cleanup"]:
+            continue
+        e = dict(env)
+        for st in blk["stmts"]:
+            if st["sk"] != "assign" or st["pl"]["p"]:
+                continue
+            d = st["pl"]["l"]
+            rv = st["rv"]
+            if rv["rk"] == "use":
+                op = rv["ops"][0]
+                if op.get("k") == "const" and "int" in op and str(op["int"]) in ("0", "1") and body.locals[d] == "bool":
+                    e[d] = int(op["int"])
+                elif op.get("k") != "const" and not op["pl"]["p"] and op["pl"]["l"] in e:
+                    e[d] = e[op["pl"]["l"]]
+                else:
+                    e.pop(d, None)
+            elif rv["rk"] == "unop" and rv.get("op") == "Not" and rv["ops"][0].get("k") != "const" and rv["ops"][0]["pl"]["l"] in e and not rv["ops"][0]["pl"]["p"]:
+                e[d] = 1 - e[rv["ops"][0]["pl"]["l"]]
+            else:
+                e.pop(d, None)
+        t = blk["term"]
+        if t["tk"] == "call" and t.get("dest") and not t["dest"]["p"]:
+            e.pop(t["dest"]["l"], None)
+        succs = None
+        if t["tk"] == "switch" and t["discr"].get("k") != "const" and not t["discr"]["pl"]["p"] and t["discr"]["pl"]["l"] in e:
+            v = e[t["discr"]["pl"]["l"]]
+            arms = {int(a[0]): a[1] for a in t["arms"]}
+            succs = [arms[v]] if v in arms else [t["otherwise"]]
+        if succs is None:
+            succs = [x for x in body.term_succs(bb)]
+        fe = frozenset(e.items())
+        for sx in succs:
+            if sx is not None and not body.blocks[sx]["cleanup"]:
+                work.append((sx, fe))
+    return out
+
+
 def local_implies(body, local, inner, polarity, value):
     """Does the bool `local` having `value` imply that the test event(s) `inner` returned `polarity`? (`let wanted =
     a.test() && !b.test(); if wanted {..}`: every way the local can become `value` is the test's own result in
